@@ -90,7 +90,9 @@ package reporting
 //@   loop 1 invariant start <= $v && len(result.content) == $v - start && len(result.lineNumbers) == $v - start
 //@   loop 1 invariant forall j int :: 0 <= j && j < len(result.lineNumbers) ==> result.lineNumbers[j] == start + j + 1
 //@   loop 1 invariant forall j int :: 0 <= j && j < len(result.content) ==> start + j < len(lines) && result.content[j] == lines[start + j]
-//@   loop 1 invariant end < len(lines) && reporterOK(r) && ($v <= end + 1 || $v == start)
+// (that end < len(lines) is not repeated here: end and lines are not written in the loop, the fact survives from the clamp in
+// front of it - and a wrong clamp then fails the index obligation itself instead of hiding behind an invariant, seed C10-6)
+//@   loop 1 invariant reporterOK(r) && ($v <= end + 1 || $v == start)
 
 // ---- C17 / C08: what is emitted ---------------------------------------------------------------------------------
 // A diagnostic is emitted for a violation iff the suppression set does not cover (code, position); the code looked
